@@ -275,7 +275,7 @@ def handwritten_cases(draw):
 
 CLAUSES = [
     Clause('roundtrip', check_roundtrip, kind='random', strategy=roundtrip_cases,
-           budget={'quick': 1500, 'thorough': 15000}),
+           budget={'quick': 6000, 'thorough': 40000}),
     Clause('handwritten-files', check_handwritten, kind='random', strategy=handwritten_cases,
-           budget={'quick': 800, 'thorough': 8000}),
+           budget={'quick': 3000, 'thorough': 20000}),
 ]
